@@ -79,6 +79,8 @@ impl HLCTimestamp {
     /// This internally gets the current UNIX timestamp in seconds.
     pub fn now(counter: u16, node: u8) -> Self {
         let duration = get_datacake_timestamp();
+        #[cfg(datacake_verif)]
+        let duration = verif_datacake_timestamp(node).unwrap_or(duration);
         Self::new(duration, counter, node)
     }
 
@@ -152,6 +154,8 @@ impl HLCTimestamp {
     /// for transmission to another system.
     pub fn send(&mut self) -> Result<Self, TimestampError> {
         let ts = get_datacake_timestamp();
+        #[cfg(datacake_verif)]
+        let ts = verif_datacake_timestamp(self.node()).unwrap_or(ts);
 
         let ts_old = self.datacake_timestamp();
         let c_old = self.counter();
@@ -185,6 +189,8 @@ impl HLCTimestamp {
         }
 
         let ts = get_datacake_timestamp();
+        #[cfg(datacake_verif)]
+        let ts = verif_datacake_timestamp(self.node()).unwrap_or(ts);
 
         // Unpack the message wall time/counter
         let ts_msg = msg.datacake_timestamp();
@@ -346,6 +352,14 @@ pub fn get_datacake_timestamp() -> Duration {
 
     let (seconds, fractional) = duration_to_parts(duration - DATACAKE_EPOCH);
     parts_as_duration(seconds, fractional)
+}
+
+#[cfg(datacake_verif)]
+/// The injected wall clock, converted exactly as [get_datacake_timestamp] converts the real one.
+fn verif_datacake_timestamp(node: u8) -> Option<Duration> {
+    let duration = crate::verif::unix_now(node)?;
+    let (seconds, fractional) = duration_to_parts(duration - DATACAKE_EPOCH);
+    Some(parts_as_duration(seconds, fractional))
 }
 
 #[cfg(test)]
